@@ -519,8 +519,8 @@ def run(ctx):
     length = 6
     plen = 2
     prefixes = _prefixes(plen)
-    # deal prefixes round-robin into 64 shards so the 16 workers stay evenly loaded
-    nshards = 64
+    # deal prefixes round-robin into 16 shards (every pmap item is a freshly forked worker, so items should not be tiny)
+    nshards = 16
     shards = [([], length) for _ in range(nshards)]
     for n, p in enumerate(prefixes):
         shards[n % nshards][0].append(p)
